@@ -46,3 +46,10 @@ P['C19'] = dict(
     jobs=_dh_jobs())
 
 P['SMOKE'] = dict(disabled=True, level_text='', level_note='', jobs=[dict(name='smoke', tu='harness/w_smoke.cpp', entry='h_smoke', engine='B', clock=True, reach=['end'])])
+
+P['C07'] = dict(
+    level_text='The real mqtt_client (all of async_sender, publish_send_op, replies, client_service, autoconnect_stream, reconnect/connect ops) is executed symbolically against a stub socket/timer/resolver world: Receive Maximum of each connection is one 16-bit symbol, and every order of publish / write completion / broker ack / per-operation cancellation / connection loss + reconnect up to the step bound is explored. A wire monitor, independent of the client\'s quota counter, counts QoS>0 PUBLISH packets handed to the stream and not yet acknowledged.',
+    level_note='Bounds: <= 3 QoS 1 publishes, <= 1 total-cancellation, <= 1 reconnect, 7 (quick) / 9 (thorough) steps; external events happen at quiescent points (handler queue drained). Stub world (shadow/) replaces OS sockets, timers and resolver; writes complete atomically in this harness.',
+    assumptions=['environment = shadow/vk_world.hpp: FIFO executor, virtual-time timers, stream socket and resolver completed by the harness', 'external events are injected only when the handler queue is empty'],
+    jobs=[dict(name='receive_maximum', tu='harness/w_c07.cpp', entry='h_c07', engine='B', clock=True, defs_quick={'VK_STEPS': 7}, defs_thorough={'VK_STEPS': 9},
+               reach=['two-in-flight', 'acked', 'reconnected', 'a-publish-completed'], samples=10)])
